@@ -21,17 +21,20 @@ TrimEdgesDZ(samples, cfg, K, Z) ==
   { [src |-> a, dst |-> b, w |-> TrimEdgeWZ(samples, cfg, K, Z, a, b)] :
       <<a, b>> \in { p \in K \X K : p[1] # p[2] /\ \E i \in DOMAIN samples :
                         Counted(samples[i], cfg) /\ AdjPosZ(Entries(samples[i], cfg), K, Z, p[1], p[2]) # {} } }
-\* three-valued residual flag: TRUE if every contributing adjacency bypasses a removed entry,
-\* FALSE if none does, otherwise either (the code decides by the first occurrence in each sample)
+\* residual flag of an edge: within one sample only the FIRST occurrence (root to leaf) of the adjacency counts
+\* (later ones are de-duplicated), and that occurrence is residual iff it bypasses a removed entry; the edge is
+\* residual iff some sample contributes a residual occurrence (any-of), direct contributions notwithstanding
+FirstOcc(P) == CHOOSE p \in P : \A q \in P : p[2] <= q[2]
+ResidualD(samples, cfg, K, Z, a, b) ==
+  \E i \in DOMAIN samples : Counted(samples[i], cfg) /\
+     LET P == AdjPosZ(Entries(samples[i], cfg), K, Z, a, b) IN P # {} /\ FirstOcc(P)[2] > FirstOcc(P)[1] + 1
 AllBypassZ(samples, cfg, K, Z, a, b) ==
   \A i \in DOMAIN samples : Counted(samples[i], cfg) =>
      \A p \in AdjPosZ(Entries(samples[i], cfg), K, Z, a, b) : p[2] > p[1] + 1
 NoBypassZ(samples, cfg, K, Z, a, b) ==
   \A i \in DOMAIN samples : Counted(samples[i], cfg) =>
      \A p \in AdjPosZ(Entries(samples[i], cfg), K, Z, a, b) : p[2] = p[1] + 1
-ResidualOKZ(samples, cfg, K, Z, a, b, flag) ==
-  /\ (AllBypassZ(samples, cfg, K, Z, a, b) => flag)
-  /\ (NoBypassZ(samples, cfg, K, Z, a, b) => ~flag)
+ResidualOKZ(samples, cfg, K, Z, a, b, flag) == flag = ResidualD(samples, cfg, K, Z, a, b)
 \* the reading used for an explicit kept set (Trim.tla: graph.New with KeptNodes): everything outside K is bridged
 AdjPos(es, K, a, b) == AdjPosZ(es, K, {}, a, b)
 TrimEdgeW(samples, cfg, K, a, b) == TrimEdgeWZ(samples, cfg, K, {}, a, b)
